@@ -63,7 +63,10 @@ type Fault struct {
 // Conn is one end of an in-memory connection.
 type Conn struct {
 	// CloseDelay: Close blocks for this long before it takes effect (set before the connection is handed out).
-	CloseDelay    time.Duration
+	CloseDelay time.Duration
+	// CloseErr: Close does its work and then reports this error (a tls.Conn whose close_notify could not be written
+	// reports one; the connection is closed all the same)
+	CloseErr      error
 	rd, wr        *pipe
 	local, remote addr
 	closeOnce     sync.Once
@@ -336,7 +339,7 @@ func (c *Conn) Close() error {
 			cb()
 		}
 	})
-	return nil
+	return c.CloseErr
 }
 
 // IsClosed reports whether Close was called on this end.
@@ -403,6 +406,8 @@ type Listener struct {
 	// package does), "bare" = net.ErrClosed itself, "wrapped" = an error wrapping it with %w (as listeners of other
 	// packages do). errors.Is(err, net.ErrClosed) holds for all three.
 	ClosedErr string
+	// ServerCloseErr is given to the server end of every connection dialled from now on (see Conn.CloseErr).
+	ServerCloseErr error
 }
 
 func NewListener() *Listener {
@@ -444,6 +449,7 @@ var ErrRefused = errors.New("memnet: connection refused (listener closed)")
 // Dial creates a connection, hands the server end to Accept and returns the client end.
 func (l *Listener) Dial() (*Conn, error) {
 	client, server := Pipe()
+	server.CloseErr = l.ServerCloseErr
 	select {
 	case l.ch <- server:
 		return client, nil
@@ -455,6 +461,7 @@ func (l *Listener) Dial() (*Conn, error) {
 // DialPair is Dial but also returns the server end (for instrumentation).
 func (l *Listener) DialPair() (client, server *Conn, err error) {
 	client, server = Pipe()
+	server.CloseErr = l.ServerCloseErr
 	select {
 	case l.ch <- server:
 		return client, server, nil
